@@ -333,21 +333,29 @@ Alias(n) == IF n = "_" THEN "message" ELSE n
 
 \* point: [meas, ks (key names), es (entries [flag, v])]
 PtFind(pt, k) == LET S == {i \in 1..Len(pt.ks) : pt.ks[i] = k} IN IF S = {} THEN 0 ELSE CHOOSE i \in S : TRUE
-PtGet(pt, k) == LET i == PtFind(pt, k) IN IF i = 0 THEN [found |-> FALSE, v |-> VNil] ELSE [found |-> TRUE, v |-> pt.es[i].v]
+\* a tag whose value was replaced by "no value" (add_key(tag, <value-less expression>)) is gone from the output point and reads as
+\* nil, but the key is still known as a tag: a later write makes it a tag again.  Such an entry holds the marker NoTag.
+NoTag == [t |-> "notag"]
+PtGet(pt, k) == LET i == PtFind(pt, k) IN IF i = 0 THEN [found |-> FALSE, v |-> VNil]
+                                          ELSE [found |-> TRUE, v |-> IF pt.es[i].v = NoTag THEN VNil ELSE pt.es[i].v]
 PtDel(pt, k) == LET i == PtFind(pt, k)
                 IN IF i = 0 THEN pt
                    ELSE [pt EXCEPT !.ks = SubSeq(@, 1, i - 1) \o SubSeq(@, i + 1, Len(@)),
                                    !.es = SubSeq(@, 1, i - 1) \o SubSeq(@, i + 1, Len(@))]
 \* Point.Set with an already stored-form value sv (lists/maps are stored as a snapshot marker [t |-> "json", d |-> deep])
+VoidStored == [t |-> "voidstored"]          \* stored form of "no value"
+UnVoid(sv) == IF sv = VoidStored THEN VNil ELSE sv
 PtSetField(pt, k, sv) ==
   LET i == PtFind(pt, k)
-  IN IF i = 0 THEN [pt EXCEPT !.ks = Append(@, k), !.es = Append(@, [flag |-> "field", v |-> sv])]
-     ELSE IF pt.es[i].flag = "field" THEN [pt EXCEPT !.es[i].v = sv]
+  IN IF i = 0 THEN [pt EXCEPT !.ks = Append(@, k), !.es = Append(@, [flag |-> "field", v |-> UnVoid(sv)])]
+     ELSE IF pt.es[i].flag = "field" THEN [pt EXCEPT !.es[i].v = UnVoid(sv)]
+     ELSE IF sv = VoidStored THEN [pt EXCEPT !.es[i].v = NoTag]
      ELSE LET x == IF sv.t = "json" THEN [ok |-> FALSE, s |-> <<>>] ELSE ToStrV(sv)     \* a tag keeps being a tag
           IN [pt EXCEPT !.es[i].v = IF x.ok THEN VStr(x.s) ELSE [t |-> "tagstr", of |-> sv]]
 \* Point.SetTag: create the key as a tag or move it to the tags, with the value's string form
-PtSetTag(pt, k, sv) ==
-  LET x == IF sv.t = "json" THEN [ok |-> FALSE, s |-> <<>>] ELSE ToStrV(sv)
+PtSetTag(pt, k, sv0) ==
+  LET sv == UnVoid(sv0)                   \* no value has the empty string form
+      x == IF sv.t = "json" THEN [ok |-> FALSE, s |-> <<>>] ELSE ToStrV(sv)
       tv == IF x.ok THEN VStr(x.s) ELSE [t |-> "tagstr", of |-> sv]
       i == PtFind(pt, k)
   IN IF i = 0 THEN [pt EXCEPT !.ks = Append(@, k), !.es = Append(@, [flag |-> "tag", v |-> tv])]
@@ -360,7 +368,7 @@ PtRename(pt, to, from) ==
               p1 == PtDel(PtDel(pt, from), to)
           IN [p1 EXCEPT !.ks = Append(@, to), !.es = Append(@, e)]
 StoredForm(h, v) == IF v.t = "ref" THEN [t |-> "json", d |-> DeepV(h, v)]
-                    ELSE IF v.t = "void" THEN VNil ELSE v
+                    ELSE IF v.t = "void" THEN VoidStored ELSE v
 
 \* read a name: innermost variable, else point key (v1 only), else nil / error (v2)
 ReadName(st, n0) ==
